@@ -541,6 +541,7 @@ def eq_tree(rnd):
 
 
 class C08(_Base):
+    observed_from_suite = ["HeapTrace"]
     id = "C08"
     design_ref = "DESIGN.md section 3, C08"
     rule = ("histories of the system specification (tagify, copy, the read-only operations, public mutators through a "
